@@ -14,7 +14,8 @@ Proof.
   destruct (associate_re line) as [body|].
   { destruct (strip_paren body 0) as [|first rest0]; [discriminate|]. destruct (add_batch a (paren_split comma first)); [|discriminate].
     injection H as _ <-. unfold add_calls. now apply append_calls_inv. }
-  destruct (arith_goto_re line); [injection H as _ <-; exact Hinv|].
+  destruct (goto_rewrite false [] line) as [line'|].
+  { destruct (call_gate line'); injection H as _ <-; [unfold add_calls; now apply append_calls_inv|exact Hinv]. }
   destruct (call_gate line); injection H as _ <-; [unfold add_calls; now apply append_calls_inv|exact Hinv].
 Qed.
 
@@ -27,16 +28,21 @@ Proof.
     exact (IH a1 c1 a' calls' (line_step_inv _ _ _ _ _ Hinv E) H).
 Qed.
 
-(* for every list of statement texts: no two entries of unit.calls end in the same name, and none
-   ends in an entry of INTRINSICS *)
-Theorem once stmts calls : unit_raw_calls stmts = Some calls ->
-  NoDup (map last_of calls) /\ forall ch, In ch calls -> str_in (last_of ch) INTRINSICS = false.
+(* for every list of statement texts whatsoever: no chain twice in unit.calls before correlate, none
+   ending in an entry of INTRINSICS; and after correlate no procedure twice *)
+Theorem once stmts :
+  (forall calls, unit_raw_calls stmts = Some calls ->
+     NoDup calls /\ forall ch, In ch calls -> str_in (last_of ch) INTRINSICS = false) /\
+  (forall tb l, recorded tb stmts = Some l -> NoDup l).
 Proof.
-  unfold unit_raw_calls. destruct (run_stmts ([], []) stmts) as [[a c]|] eqn:E; [|discriminate].
-  intros H. injection H as <-.
-  assert (H0 : calls_inv []) by (split; [constructor|intros ch []]).
-  destruct (run_stmts_inv stmts [] [] a c H0 E) as [Hn Hk]. split; [exact Hn|].
-  intros ch Hin. specialize (Hk ch Hin). unfold keep in Hk. now apply negb_true_iff in Hk.
+  split.
+  - intros calls. unfold unit_raw_calls. destruct (run_stmts ([], []) stmts) as [[a c]|] eqn:E; [|discriminate].
+    intros H. injection H as <-.
+    assert (H0 : calls_inv []) by (split; [constructor|intros ch []]).
+    destruct (run_stmts_inv stmts [] [] a c H0 E) as [Hn Hk]. split; [exact Hn|].
+    intros ch Hin. specialize (Hk ch Hin). unfold keep in Hk. now apply negb_true_iff in Hk.
+  - intros tb l. unfold recorded. destruct (unit_raw_calls stmts); [|discriminate]. intros H. injection H as <-.
+    apply resolve_loop_nodup. constructor.
 Qed.
 
 (* ------------------------------------------------------------------ FORMAT and computed GO TO *)
@@ -58,24 +64,25 @@ Proof. trivial. Qed.
 Lemma span_digits l rest : forallb is_digit l = true -> span is_digit_b (l ++ space :: rest) = (l, space :: rest).
 Proof. intros H. apply span_app; [exact H|reflexivity]. Qed.
 
-(* a FORMAT statement written with the blank the pattern asks for records nothing, whatever its body *)
-Theorem format_inert lab body st : label_ok lab = true -> existsb (Ascii.eqb nl) (flat body) = false ->
-  line_step st (render_stmt (SFormat lab true body)) = Some st.
+(* a FORMAT statement records nothing, whatever its body, with or without a blank before "(" *)
+Theorem format_inert lab sp body st : label_ok lab = true -> existsb (Ascii.eqb nl) (flat body) = false ->
+  line_step st (render_stmt (SFormat lab sp body)) = Some st.
 Proof.
   intros Hl Hb. unfold label_ok in Hl. apply andb_true_iff in Hl as [Hn Hd].
-  assert (Hf : format_re (render_stmt (SFormat lab true body)) = true).
+  assert (Hf : format_re (render_stmt (SFormat lab sp body)) = true).
   { cbn [render_stmt]. unfold format_re.
-    change (lab ++ s " format" ++ [space] ++ lpar :: flat body ++ [rpar])
-      with (lab ++ space :: (s "format" ++ space :: lpar :: flat body ++ [rpar])).
+    change (lab ++ s " format" ++ (if sp then [space] else []) ++ lpar :: flat body ++ [rpar])
+      with (lab ++ space :: (s "format" ++ (if sp then [space] else []) ++ lpar :: flat body ++ [rpar])).
     rewrite (span_digits lab _ Hd). destruct lab as [|c0 l0]; [discriminate|]. cbn [is_nil].
-    assert (E1 : span is_space (space :: s "format" ++ space :: lpar :: flat body ++ [rpar])
-                 = ([space], s "format" ++ space :: lpar :: flat body ++ [rpar])) by reflexivity.
+    assert (E1 : span is_space (space :: s "format" ++ (if sp then [space] else []) ++ lpar :: flat body ++ [rpar])
+                 = ([space], s "format" ++ (if sp then [space] else []) ++ lpar :: flat body ++ [rpar])) by reflexivity.
     rewrite E1. cbn [is_nil].
-    assert (E2 : starts_ci (s "format") (s "format" ++ space :: lpar :: flat body ++ [rpar]) = true) by reflexivity.
+    assert (E2 : starts_ci (s "format") (s "format" ++ (if sp then [space] else []) ++ lpar :: flat body ++ [rpar]) = true) by reflexivity.
     rewrite E2.
-    assert (E3 : span is_space (skipn 6 (s "format" ++ space :: lpar :: flat body ++ [rpar]))
-                 = ([space], lpar :: flat body ++ [rpar])) by reflexivity.
-    rewrite E3. cbn [is_nil]. change (Ascii.eqb lpar lpar) with true. cbn iota.
+    assert (E3 : snd (span is_space (skipn 6 (s "format" ++ (if sp then [space] else []) ++ lpar :: flat body ++ [rpar])))
+                 = lpar :: flat body ++ [rpar]) by (destruct sp; reflexivity).
+    destruct (span is_space (skipn 6 (s "format" ++ (if sp then [space] else []) ++ lpar :: flat body ++ [rpar]))) as [w2 x3].
+    cbn [snd] in E3. subst x3. change (Ascii.eqb lpar lpar) with true. cbn iota.
     destruct (span_to_rpar (flat body) [] Hb) as (z & Hz).
     destruct (span _ (flat body ++ [rpar])) as [u v]. cbn [snd] in Hz. subst v. reflexivity. }
   unfold line_step. destruct st as [a calls]. now rewrite Hf.
@@ -112,7 +119,7 @@ Definition ref1 (x : string) (a : expr) : expr := EDes (DLastA (s x) a).
 Definition num (x : string) : expr := ELit (s x).
 Definition tb0 (scope : labels) : symtab := mk_symtab scope [].
 
-(* region 2: de-duplication on the last component before resolution *)
+(* formerly region 2: de-duplication on the last component before resolution *)
 Definition w_same_last_tb : symtab :=
   mk_symtab [(s "a", EVar (s "t1") true); (s "b", EVar (s "t2") true)]
             [(s "t1", [(s "run", EProc (s "m.t1.run"))]); (s "t2", [(s "run", EProc (s "m.t2.run"))])].
@@ -140,52 +147,56 @@ Definition w_assoc_expr : list stmt :=
 
 (* region 8: resolving through a function that has not been correlated yet raises *)
 Definition w_crash_tb : symtab :=
-  mk_symtab [(s "mk", EFunc (s "m.mk") (s "t") false)] [(s "t", [(s "run", EProc (s "m.t.run"))])].
+  mk_symtab [(s "mk", EFunc (s "m.mk") (s "t"))] [(s "t", [(s "run", EProc (s "m.t.run"))])].
 Definition w_crash : list stmt :=
   [SAssoc true [(s "a", ref1 "mk" (num "1"))];
    SCall None (DPart0 (s "a") (DLastA (s "run") (ELit [])));
    SEndAssoc].
 
 (* region 9: the GO TO pattern swallows the statement *)
-Definition w_goto_tb : symtab := tb0 [(s "f", EFunc (s "m.f") (s "integer") true); (s "i", EVar (s "integer") true)].
+Definition w_goto_tb : symtab := tb0 [(s "f", EFunc (s "m.f") (s "integer")); (s "i", EVar (s "integer") true)].
 Definition w_goto : list stmt := [SGoto [s "10"; s "20"] (ref1 "f" (name "i"))].
 
-Theorem refuted_same_last : refutes w_same_last_tb w_same_last /\ region_same_last w_same_last_tb w_same_last = true /\
-  recorded w_same_last_tb (map render_stmt w_same_last) = Some [s "m.t1.run"] /\
-  calls_of w_same_last_tb w_same_last = [s "m.t1.run"; s "m.t2.run"].
-Proof. unfold refutes. repeat match goal with |- _ /\ _ => split end; vm_compute; reflexivity. Qed.
-
+(* ---- still open ---- *)
 Theorem refuted_intrinsic_named : refutes w_intrinsic_tb w_intrinsic /\ region_intrinsic_named w_intrinsic_tb w_intrinsic = true /\
   map render_stmt w_intrinsic = [s "call wait(3)"] /\
   recorded w_intrinsic_tb (map render_stmt w_intrinsic) = Some [] /\ calls_of w_intrinsic_tb w_intrinsic = [s "m.wait"].
 Proof. unfold refutes. repeat match goal with |- _ /\ _ => split end; vm_compute; reflexivity. Qed.
 
-Theorem refuted_labelled_call : refutes w_labelled_tb w_labelled /\ region_labelled_call w_labelled = true /\
+(* ---- repaired in FORD: the former witnesses now come out right (regression inputs) ---- *)
+Definition agrees (tb : symtab) (ss : list stmt) : Prop :=
+  forallb wf_stmt ss = true /\ map mask_quotes (map render_stmt ss) = map render_stmt ss /\
+  match recorded tb (map render_stmt ss) with Some l => same_set l (calls_of tb ss) = true | None => False end.
+
+Theorem fixed_same_last : agrees w_same_last_tb w_same_last /\
+  recorded w_same_last_tb (map render_stmt w_same_last) = Some [s "m.t1.run"; s "m.t2.run"].
+Proof. unfold agrees. repeat match goal with |- _ /\ _ => split end; vm_compute; reflexivity. Qed.
+
+Theorem fixed_labelled_call : agrees w_labelled_tb w_labelled /\
   map render_stmt w_labelled = [s "10 call sub0"] /\
-  recorded w_labelled_tb (map render_stmt w_labelled) = Some [] /\ calls_of w_labelled_tb w_labelled = [s "m.sub0"].
-Proof. unfold refutes. repeat match goal with |- _ /\ _ => split end; vm_compute; reflexivity. Qed.
+  recorded w_labelled_tb (map render_stmt w_labelled) = Some [s "m.sub0"].
+Proof. unfold agrees. repeat match goal with |- _ /\ _ => split end; vm_compute; reflexivity. Qed.
 
-Theorem refuted_format_nospace : refutes (tb0 []) w_format /\ region_format_nospace w_format = true /\
+Theorem fixed_format_nospace : agrees (tb0 []) w_format /\
   map render_stmt w_format = [s "100 format(i5, 3(f8.2, a))"] /\
-  recorded (tb0 []) (map render_stmt w_format) = Some [s "3"] /\ calls_of (tb0 []) w_format = [].
-Proof. unfold refutes. repeat match goal with |- _ /\ _ => split end; vm_compute; reflexivity. Qed.
+  recorded (tb0 []) (map render_stmt w_format) = Some [].
+Proof. unfold agrees. repeat match goal with |- _ /\ _ => split end; vm_compute; reflexivity. Qed.
 
-Theorem refuted_assoc_expr : refutes w_assoc_expr_tb w_assoc_expr /\ region_assoc_expr w_assoc_expr = true /\
+Theorem fixed_assoc_expr : agrees w_assoc_expr_tb w_assoc_expr /\
   map render_stmt w_assoc_expr = [s "associate (tmp => arr(1:3) + 1)"; s "i = tmp(2)"; s "end associate"] /\
-  recorded w_assoc_expr_tb (map render_stmt w_assoc_expr) = Some [s "arr+1"] /\ calls_of w_assoc_expr_tb w_assoc_expr = [].
-Proof. unfold refutes. repeat match goal with |- _ /\ _ => split end; vm_compute; reflexivity. Qed.
+  recorded w_assoc_expr_tb (map render_stmt w_assoc_expr) = Some [].
+Proof. unfold agrees. repeat match goal with |- _ /\ _ => split end; vm_compute; reflexivity. Qed.
 
-Theorem refuted_assoc_crash : refutes w_crash_tb w_crash /\ region_crash w_crash_tb w_crash = true /\
+Theorem fixed_assoc_function_selector : agrees w_crash_tb w_crash /\
   map render_stmt w_crash = [s "associate (a => mk(1))"; s "call a%run()"; s "end associate"] /\
-  recorded w_crash_tb (map render_stmt w_crash) = None /\ calls_of w_crash_tb w_crash = [s "m.mk"; s "m.t.run"].
-Proof. unfold refutes. repeat match goal with |- _ /\ _ => split end; vm_compute; try reflexivity; exact I. Qed.
+  recorded w_crash_tb (map render_stmt w_crash) = Some [s "m.mk"; s "m.t.run"].
+Proof. unfold agrees. repeat match goal with |- _ /\ _ => split end; vm_compute; reflexivity. Qed.
 
-Theorem refuted_goto : refutes w_goto_tb w_goto /\ region_goto_expr w_goto = true /\
+Theorem fixed_goto : agrees w_goto_tb w_goto /\
   map render_stmt w_goto = [s "go to (10, 20), f(i)"] /\
-  recorded w_goto_tb (map render_stmt w_goto) = Some [] /\ calls_of w_goto_tb w_goto = [s "m.f"] /\
-  (* and a CALL whose target merely ends in "goto" is dropped as well *)
-  recorded (tb0 [(s "mygoto", EProc (s "m.mygoto"))]) [s "call mygoto(1, 2)"] = Some [].
-Proof. unfold refutes. repeat match goal with |- _ /\ _ => split end; vm_compute; reflexivity. Qed.
+  recorded w_goto_tb (map render_stmt w_goto) = Some [s "m.f"] /\
+  recorded (tb0 [(s "mygoto", EProc (s "m.mygoto"))]) [s "call mygoto(1, 2)"] = Some [s "m.mygoto"].
+Proof. unfold agrees. repeat match goal with |- _ /\ _ => split end; vm_compute; reflexivity. Qed.
 
 (* region 1: FORD's tables lack a declaration the program has (an array declared by a DIMENSION or
    COMMON statement, inside a BLOCK, or in a module outside the project): the array is recorded *)
@@ -200,13 +211,13 @@ Proof. cbv zeta. repeat match goal with |- _ /\ _ => split end; vm_compute; refl
 
 (* ------------------------------------------------------------------ non-vacuity *)
 Definition ex_tb : symtab :=
-  mk_symtab [(s "f", EFunc (s "m.f") (s "integer") true); (s "g", EFunc (s "m.g") (s "integer") true);
+  mk_symtab [(s "f", EFunc (s "m.f") (s "integer")); (s "g", EFunc (s "m.g") (s "integer"));
              (s "sub", EProc (s "m.sub")); (s "t", EProc (s "m.t"));
              (s "arr", EVar (s "integer") true); (s "sums", EVar (s "integer") true);
              (s "i", EVar (s "integer") true); (s "x", EVar (s "integer") true);
              (s "obj", EVar (s "ty") true); (s "ty", EType (s "ty"))]
             [(s "ty", [(s "items", EVar (s "integer") true); (s "n", EVar (s "integer") true);
-                       (s "run", EProc (s "m.ty.run")); (s "get", EFunc (s "m.ty.get") (s "integer") true)])].
+                       (s "run", EProc (s "m.ty.run")); (s "get", EFunc (s "m.ty.get") (s "integer"))])].
 
 Definition ex_unit : list stmt :=
   [ SIfCall None true (EBin (ref1 "f" (name "i")) (s " > ") (num "0")) (DLast0 (s "t"));
@@ -242,4 +253,22 @@ Example strip_example :
   strip_paren (render_segs gs) 0 = [s "if () x = 2*()"] /\
   strip_paren (render_segs gs) 1 = [s "(f() > 0)"; s "(g())"] /\
   strip_paren (render_segs gs) 2 = [s "(arr())"; s "(y)"] /\ strip_paren (render_segs gs) 3 = [s "(i)"].
+Proof. cbv zeta. repeat match goal with |- _ /\ _ => split end; vm_compute; reflexivity. Qed.
+
+(* inside the hypothesis of C08_exact since the repairs: labelled CALL without argument list, computed
+   GO TO with a reference in its selector, FORMAT without blank, the same binding name on two types *)
+Example exact_repaired_example :
+  let tb := mk_symtab [(s "f", EFunc (s "m.f") (s "integer")); (s "t", EProc (s "m.t")); (s "i", EVar (s "integer") true);
+                       (s "a", EVar (s "t1") true); (s "b", EVar (s "t2") true)]
+                      [(s "t1", [(s "run", EProc (s "m.t1.run"))]); (s "t2", [(s "run", EProc (s "m.t2.run"))])] in
+  let ss := [SCall (Some (s "10")) (DLast0 (s "t"));
+             SGoto [s "10"; s "20"] (ref1 "f" (name "i"));
+             SFormat (s "100") false (pt_app (pt_str (s "i5, 3")) (PGrp (pt_str (s "f8.2, a")) PNil));
+             SCall None (DPart0 (s "a") (DLastA (s "run") (ELit [])));
+             SIfCall (Some (s "20")) true (EBin (ref1 "f" (ref1 "f" (name "i"))) (s " > ") (ref1 "f" (name "i")))
+                     (DPart0 (s "b") (DLast0 (s "run")))] in
+  resolvable tb ss = true /\
+  map render_stmt ss = [s "10 call t"; s "go to (10, 20), f(i)"; s "100 format(i5, 3(f8.2, a))"; s "call a%run()";
+                        s "20 if (f(f(i)) > f(i)) call b%run"] /\
+  recorded tb (map render_stmt ss) = Some [s "m.t"; s "m.f"; s "m.t1.run"; s "m.t2.run"].
 Proof. cbv zeta. repeat match goal with |- _ /\ _ => split end; vm_compute; reflexivity. Qed.
